@@ -488,7 +488,7 @@ impl<'a> ShardCtx<'a> {
     }
 }
 
-fn case_strategy(shape: &CaseShape) -> BoxedStrategy<Case> {
+pub fn case_strategy(shape: &CaseShape) -> BoxedStrategy<Case> {
     let fixed: Vec<BoxedStrategy<Vec<u8>>> =
         shape.fixed.iter().map(|&n| vec(any::<u8>(), 0..=n).boxed()).collect();
     let ops = vec(vec(any::<u8>(), shape.op_len..=shape.op_len), 0..=shape.ops_max);
